@@ -681,35 +681,43 @@ func (g *gen) item(fwd bool) string {
 			return "'" + s + "'"
 		}
 	}
-	forKey := hx.Pick(r, []string{"for", "for", "for", "For", "FOR", "fOr"})
-	others := []string{"proto=http", "by=203.0.113.43", "host=example.com", "proto=https", "by=\"[2001:db8::9]:1\"", "secret=x", "", " ", "for", "=", "forx=1.1.1.1", "fo=2.2.2.2", "by=" + g.atom()}
+	forKey := func() string { return hx.Pick(r, []string{"for", "for", "for", "For", "FOR", "fOr", "foR"}) }
+	other := func() string {
+		return hx.Pick(r, []string{"proto=http", "by=203.0.113.43", "host=example.com", "proto=https", "by=\"[2001:db8::9]:1\"", "secret=x",
+			"ext=abc", "a=b", "x-id=\"q;r\"", "Host=h", "BY=_gw", "PROTO=HTTP", "", " ", "for", "=", "=1.1.1.1", "forx=1.1.1.1", "fo=2.2.2.2", "xfor=3.3.3.3", "by=" + g.atom()})
+	}
+	forSection := func(v string) string {
+		switch p := r.Intn(100); {
+		case p < 88:
+			return forKey() + "=" + quote(v)
+		case p < 94: // spaces around '='
+			return hx.Pick(r, []string{"for =", "for= ", " for=", "for\t=", "for=\t"}) + quote(v)
+		default:
+			return forKey() + "=" + g.pad(quote(g.pad(v)))
+		}
+	}
 	var parts []string
 	switch p := r.Intn(100); {
-	case p < 40: // for only
-		parts = []string{forKey + "=" + quote(a)}
-	case p < 75: // for somewhere among up to 4 parameters
-		n := r.Range(1, 3)
-		for i := 0; i < n; i++ {
-			parts = append(parts, hx.Pick(r, others))
+	case p < 30: // for only
+		parts = []string{forSection(a)}
+	case p < 90: // 1..7 sections, for= at any position, possibly twice, possibly absent
+		k := hx.Pick(r, []int{1, 2, 2, 3, 3, 4, 4, 4, 5, 5, 5, 6, 6, 7})
+		parts = make([]string, k)
+		for i := range parts {
+			parts[i] = other()
 		}
-		i := r.Intn(len(parts) + 1)
-		parts = append(parts[:i], append([]string{forKey + "=" + quote(a)}, parts[i:]...)...)
-	case p < 83: // for beyond the 4th parameter, or exactly 4th/5th
-		n := r.Range(3, 5)
-		for i := 0; i < n; i++ {
-			parts = append(parts, hx.Pick(r, others))
+		if !r.Pct(7) {
+			parts[r.Intn(k)] = forSection(a)
+			if r.Pct(15) { // a duplicate for= (the first one counts)
+				parts[r.Intn(k)] = forSection(g.atom())
+			}
 		}
-		parts = append(parts, forKey+"="+quote(a))
-	case p < 88: // two for parameters
-		parts = []string{forKey + "=" + quote(a), "for=" + quote(g.atom())}
-	case p < 92: // spaces around '='
-		parts = []string{hx.Pick(r, []string{"for =", "for= ", " for=", "for\t="}) + quote(a)}
-	case p < 95: // no for at all
-		parts = []string{hx.Pick(r, others), hx.Pick(r, others)}
+	case p < 94: // no for at all
+		parts = []string{other(), other()}
 	case p < 97:
 		parts = []string{a} // bare address in a Forwarded header
 	default:
-		parts = []string{forKey + "=" + g.pad(quote(g.pad(a)))}
+		parts = []string{forSection(a), ""} // trailing semicolon
 	}
 	sep := hx.Pick(r, []string{";", ";", "; ", " ;", " ; "})
 	return g.pad(strings.Join(parts, sep))
@@ -1100,6 +1108,30 @@ func main() {
 		addGroup(f.rq, f.d, []atk{{h, []string{"7.7.7.7"}, &t, "fixed"}}, "fixed")
 	}
 
+	// exhaustive in the shape of a Forwarded element: 1..7 sections, for= at every position (and absent),
+	// x quoting x the strategies reading Forwarded; a spoofed element stands to its left
+	for k := 1; k <= 7; k++ {
+		for pos := 0; pos <= k; pos++ { // pos == k: no for= section
+			for _, q := range []string{"9.9.9.9", "\"9.9.9.9\"", "\"[2001:db8::9]:443\"", "FOR"} {
+				secs := make([]string, k)
+				for i := range secs {
+					secs[i] = []string{"by=203.0.113.43", "host=example.com", "proto=https", "ext=abc", "a=b", "c=d", "e=f"}[i]
+				}
+				if pos < k {
+					if q == "FOR" {
+						secs[pos] = "FOR=9.9.9.9"
+					} else {
+						secs[pos] = "for=" + q
+					}
+				}
+				rq := reqDesc{fwd: []string{"for=6.6.6.6, " + strings.Join(secs, ";")}}
+				for _, d := range []*rdesc{{kind: "count", fwd: true, n: 1}, {kind: "rnp", fwd: true}, {kind: "range", fwd: true, rangeOK: true, ranges: []string{"10.0.0.0/8"}}, {kind: "leftmost", fwd: true, n: 2}} {
+					addGroup(rq, d, nil, "forwarded-sections-exhaustive")
+				}
+			}
+		}
+	}
+
 	// exhaustive in the option lists: every list of up to 2 (thorough: 3) Trust*/Exclude* options
 	// x both non-private strategies x headers that put a member of each family in the deciding position
 	famHeaders := [][]string{
@@ -1207,7 +1239,7 @@ func main() {
 	st.Evaluations = observations
 	st.DistinctNontrivial = nontrivial
 	st.Exhaustive = false
-	st.Extra = map[string]any{"case_terms": cs.Len(), "exhaustive_scopes": []string{fmt.Sprintf("all Trust*/Exclude* option lists of length <= %d x {rightmost-non-private, leftmost-non-private} x %d family headers", maxOpts, len(famHeaders))}, "note": "evaluations = runs of the implementation compared with model and spec (one per base request, one per attack, one per ParseIPAddr call); a case term groups a base request with its attacks"}
+	st.Extra = map[string]any{"case_terms": cs.Len(), "exhaustive_scopes": []string{"Forwarded element with 1..7 sections x for= at every position or absent x 4 spellings x {count 1, rightmost-non-private, trusted-range, leftmost}", fmt.Sprintf("all Trust*/Exclude* option lists of length <= %d x {rightmost-non-private, leftmost-non-private} x %d family headers", maxOpts, len(famHeaders))}, "note": "evaluations = runs of the implementation compared with model and spec (one per base request, one per attack, one per ParseIPAddr call); a case term groups a base request with its attacks"}
 	hx.Fatal(cs.Write(out, shards))
 	hx.Fatal(st.Write(out))
 	fmt.Printf("c18: %d observations in %d case terms written to %s\n", observations, cs.Len(), out)
